@@ -59,6 +59,11 @@ def run(rep, work, tier, seed):
           expect_actions=["Make", "EnterMade", "Close", "RunCb"], timeout=3000)
     leg_r(rep, work, SPEC, f"made_conf_{tier}", cfg_text(madec, invariants=INVS), lambda: MetricsDriver(["Cat"]),
           internal=INTERNAL, world=True)
+    # a task spawned into the scope spawns another one while the scope's owner is already waiting for its tasks: the scope
+    # waits for that one too, and completes after it
+    latem = dict(NTasks=3, N=2, MaxOps=6, MaxRec=0, MaxT=0, MTypes=["Cat"], Kinds=["a"], Prep=False, Threads=False, Bug="none")
+    leg_r(rep, work, SPEC, f"late_member_conf_{tier}", cfg_text(latem, invariants=INVS), lambda: MetricsDriver(["Cat"]),
+          internal=INTERNAL, world=True)
     # code running off the event loop (a worker thread with a copy of the task's context) tries to open a scope: refused or
     # not, the scopes of the task complete as they would have
     thr = dict(NTasks=2, N=2, MaxOps=5, MaxRec=0, MaxT=0, MTypes=["Cat"], Kinds=["s", "a"], Prep=False, Threads=True, Bug="none")
